@@ -1322,6 +1322,18 @@ static void initializer2(Token **rest, Token *tok, Initializer *init) {
   }
 
   if (init->ty->kind == TY_UNION) {
+    // Like a struct, a union can be initialized with another union.
+    if (!equal(tok, "{")) {
+      Token *end;
+      Node *expr = assign(&end, tok);
+      add_type(expr);
+      if (expr->ty->kind == TY_UNION) {
+        init->expr = expr;
+        *rest = end;
+        return;
+      }
+    }
+
     union_initializer(rest, tok, init);
     return;
   }
@@ -1410,7 +1422,7 @@ static Node *create_lvar_init(Initializer *init, Type *ty, InitDesg *desg, Token
     return node;
   }
 
-  if (ty->kind == TY_UNION) {
+  if (ty->kind == TY_UNION && !init->expr) {
     Member *mem = init->mem ? init->mem : ty->members;
     InitDesg desg2 = {desg, 0, mem};
     return create_lvar_init(init->children[mem->idx], mem->ty, &desg2, tok);
